@@ -22,7 +22,7 @@ import numpy as np
 from ..engine import post, check_function, source_info
 from ..harness import lp, ro, rsome, arr, sym_array
 from ..spec import dual as D, views
-from ..sym import SymReal, p_and, p_eq, p_implies, p_le, ctx
+from ..sym import SymReal, p_and, p_eq, p_implies, p_le, p_not, ctx
 from . import c11
 
 META = {
@@ -36,7 +36,7 @@ META = {
     "bounds": "3 user variables, 3 linear constraints with 2/1/1 rows, upper and lower bound constraints on variables and slices; min and max",
     "trusted_base": ["z3", "HiGHS marginals convention and ECOS dual convention as documented", "C06: compiled rows are the user's rows plus the epigraph row"],
     "assumptions": ["each variable entry carries at most one upper and one lower bound constraint (as stated in the property)",
-                    "Gurobi's pi / rc extraction is not covered"],
+                    "Gurobi: Pi / RC conventions of a minimisation LP as documented (assumed); QCP duals are not covered"],
 }
 
 
@@ -269,6 +269,78 @@ def extraction():
     return out
 
 
+def gurobi_extraction():
+    """grb_solver.solve reads Pi of the '=' and '<' groups and the reduced costs RC.  Assumed (Gurobi's documented
+    optimality conditions for a minimisation LP):  c = A'Pi + RC;  Pi_i <= 0 on '<' rows;  RC_j > 0 only with x_j at a
+    finite lower bound, RC_j < 0 only with x_j at a finite upper bound;  Pi_i != 0 only on tight rows;  x feasible,
+    ObjVal = c.x.  Proved: the (pi, upi, lpi) triple handed to the model satisfies the KKT contract of the compiled
+    program (in particular its dual objective equals ObjVal)."""
+    try:
+        import rsome.grb_solver as grb_mod
+    except Exception:
+        return []
+    out = []
+    for sense in itertools.product([0, 1], repeat=2):
+        for kinds in (("free", "lb"), ("box", "ub"), ("fixed", "free"), ("lb", "box")):
+            def setup(c, sense=sense, kinds=kinds):
+                F = c11.sym_formula(c, 2, 2, sense, kinds)
+                F = lp.LinProg(F.linear, F.const, F.sense, F.vtype, F.ub, F.lb, F.obj)
+                fake = c11.FakeGp(c, 2)
+                fake.duals = True
+                return {"F": F, "fake": fake}
+
+            def call(ns):
+                real = grb_mod.gp
+                grb_mod.gp = ns["fake"]
+                try:
+                    return grb_mod.solve(ns["F"], display=False)
+                finally:
+                    grb_mod.gp = real
+
+            def contract(ns, sol):
+                F = ns["F"]
+                g = ns["fake"].made[0]
+                y = sol.y
+                if y is None or sol.x is None:
+                    return False
+                A = views.dense(F.linear)
+                x = list(g.X)
+                rc = list(np.asarray(g.mvars[0].rc, dtype=object))
+                # Pi per row, in the row order of the formula: the groups were added as ('=' rows, '<' rows)
+                pi_true = [None, None]
+                eq_rows = [i for i in range(2) if F.sense[i] == 1]
+                in_rows = [i for i in range(2) if F.sense[i] == 0]
+                for rec in g.mrecs:
+                    rows = eq_rows if rec.sense == "=" else in_rows
+                    for k_, i in enumerate(rows):
+                        pi_true[i] = rec.pi[k_]
+                if any(v is None for v in pi_true):
+                    return False
+                pre = []
+                for j in range(2):
+                    pre.append(p_eq(F.obj[j], sum((A[i, j] * pi_true[i] for i in range(2)), 0.0) + rc[j]))
+                    lo, hi = F.lb[j], F.ub[j]
+                    pre.append(p_le(rc[j], 0) if _inf(lo, -1) else p_implies(p_not(p_le(rc[j], 0)), p_eq(x[j], lo)))
+                    pre.append(p_le(0, rc[j]) if _inf(hi, 1) else p_implies(p_not(p_le(0, rc[j])), p_eq(x[j], hi)))
+                    if not _inf(lo, -1):
+                        pre.append(p_le(lo, x[j]))
+                    if not _inf(hi, 1):
+                        pre.append(p_le(x[j], hi))
+                for i in range(2):
+                    ax = sum((A[i, j] * x[j] for j in range(2)), 0.0)
+                    if F.sense[i] == 1:
+                        pre.append(p_eq(ax, F.const[i]))
+                    else:
+                        pre += [p_le(ax, F.const[i]), p_le(pi_true[i], 0), p_implies(p_not(p_eq(pi_true[i], 0)), p_eq(ax, F.const[i]))]
+                pre.append(p_eq(sol.objval, sum((F.obj[j] * x[j] for j in range(2)), 0.0)))
+                return p_implies(p_and(*pre), kkt_contract(F, y["pi"], y["upi"], y["lpi"], sol.objval))
+            obs, _ = check_function("rsome.grb_solver:solve", setup, call,
+                                    [post("extracted-multipliers-satisfy-the-kkt-contract", contract)], mode="D",
+                                    label=f"sense={sense} bounds={'/'.join(kinds)}", bounded=True, max_paths=200, z3_ms=60000)
+            out += obs
+    return out
+
+
 def ecos_contract(ns, sol):
     """ECOS optimality: c + G^T z + A^T y = 0, z >= 0 (linear cone), objective pcost = -h.z - b.y.
     Then (pi, upi, lpi) read off by eco_solver.solve satisfy the KKT contract of the compiled program."""
@@ -299,7 +371,7 @@ def ecos_contract(ns, sol):
 
 def jobs(tier):
     js = [{"name": f"certificate-{s}-{v}", "kind": "cert", "sense": s, "variant": v} for s in ("min", "max") for v in ("whole", "slices", "permuted", "permuted-partial")]
-    js += [{"name": "unsolved", "kind": "unsolved"}, {"name": "extraction", "kind": "extraction"}]
+    js += [{"name": "unsolved", "kind": "unsolved"}, {"name": "extraction", "kind": "extraction"}, {"name": "extraction-gurobi", "kind": "extraction-gurobi"}]
     return js
 
 
@@ -310,4 +382,6 @@ def run_job(job):
         return unsolved()
     if job["kind"] == "extraction":
         return extraction()
+    if job["kind"] == "extraction-gurobi":
+        return gurobi_extraction()
     raise ValueError(job["kind"])
